@@ -1,4 +1,4 @@
-import PedalModel.Timeout
+import PedalModel.TimeoutMachine
 /-
 C14 — the invariant of the interleaving machine under the claim protocol (`fixed`) and its
 preservation by every step of either thread.  The invariant says that the shared sandbox
@@ -6,7 +6,7 @@ state is a FUNCTION of the control state (who holds the claim, where each thread
 claim sequentialises the finalization of E1 although the threads interleave freely.
 -/
 namespace Pedal.Timeout
-open Pedal.Gen.Timeout
+
 
 /-- the protocol as repaired -/
 def fixed : Cfg := { claim := true, handlerPops := true, handlerBumps := true }
@@ -101,5 +101,22 @@ structure Inv (s : St) : Prop where
 
 theorem inv_init : Inv init := by
   constructor <;> simp [init, legal, expStacks, expFb, expExc, expNext, e1Appended, GPc.rank, TPc.rank]
+
+/-! ### what E2 wrote stays E2's: the data part (needs `swallows → ¬ prints`) -/
+
+def expBuf2 (g : GPc) : List Tok :=
+  if g.rank ≤ 12 then [] else if g.rank = 13 then [.n] else [.n, .x]
+
+structure InvData (p : Prog) (s : St) : Prop where
+  hbuf2 : s.buf2 = expBuf2 s.gpc
+  hout2v : s.out2 = if s.gpc.rank ≥ 16 then [.n, .x] else []
+  hreal : ∀ k ∈ s.real, k = Tok.e1
+  /-- once the grader has told T to terminate, a T that is still in student code either has the
+  SystemExit pending, or swallowed it, or is blocked -/
+  haux : s.claim = some .g → s.gpc ≠ .term → s.tpc = .run →
+    (s.pending = true ∨ p.swallows = true ∨ p.blocked = true)
+
+theorem invd_init (p : Prog) : InvData p init := by
+  constructor <;> simp [init, expBuf2, GPc.rank]
 
 end Pedal.Timeout
